@@ -48,6 +48,9 @@ type job struct {
 	profile string
 	quorum  []bool
 	voteID  map[*types.Vote]uint16
+	// cryptoEverywhere: signature-only-invalid tokens are executed in every state; otherwise in the
+	// first state (BFS order) of every distinct context of the addressed validator.
+	cryptoEverywhere bool
 }
 
 func (j *job) label() string {
@@ -209,6 +212,17 @@ type node struct {
 	parent int32
 	tok    int16
 	depth  int16
+	claims uint8 // claim tokens on the path (bit = index among the universe's claim tokens)
+	crypto uint8 // validators whose signature-only-invalid tokens are executed in this node
+}
+
+type ctxKey struct {
+	val     int8
+	first   int8
+	offered uint8
+	ok      bool
+	maj     int8
+	claims  uint8
 }
 
 type vkey struct {
@@ -242,12 +256,13 @@ type search struct {
 	j       *job
 	nodes   []node
 	visited map[vkey][]uint16
+	seenCtx map[ctxKey]bool
 	viols   []rawViol
 	// statistics
 	states, transitions, selfLoops, subsumed, revisits int64
-	majStates, commitChecks, replayChecks             int64
-	maxDepth                                          int
-	complete                                          bool
+	majStates, commitChecks, replayChecks              int64
+	maxDepth                                           int
+	complete                                           bool
 }
 
 func (s *search) path(idx int32) []*token {
@@ -281,6 +296,9 @@ func (s *search) expand(idx int32) expansion {
 	}
 	var scratch *types.VoteSet
 	for ti, t := range j.toks {
+		if t.crypto && nd.crypto>>uint(t.ctxVal)&1 == 0 {
+			continue
+		}
 		if scratch == nil {
 			scratch = types.VerifC02Clone(nd.vs)
 		}
@@ -338,6 +356,23 @@ func (s *search) expand(idx int32) expansion {
 	return ex
 }
 
+// cryptoMask decides (sequentially, in BFS order) for which validators the signature-only-invalid
+// tokens are executed in a new node.
+func (s *search) cryptoMask(nd *node) uint8 {
+	if s.j.cryptoEverywhere {
+		return 0xff
+	}
+	var m uint8
+	for v := 0; v < s.j.n; v++ {
+		c := ctxKey{int8(v), nd.or.first[v], uint8(nd.or.offered >> uint(4*v) & 0xf), nd.ob.ok, nd.ob.maj, nd.claims}
+		if !s.seenCtx[c] {
+			s.seenCtx[c] = true
+			m |= 1 << uint(v)
+		}
+	}
+	return m
+}
+
 // covered reports whether an explored state with the same (implKey, first) has offered ⊆ off.
 // Called concurrently with other readers only.
 func (s *search) covered(k vkey, off uint16) bool {
@@ -375,7 +410,7 @@ func (s *search) validateClone(idx int32, t *token, key implKey, ob obs) {
 const batchSize = 2048
 
 func (j *job) explore(maxStates int64) *search {
-	s := &search{j: j, visited: map[vkey][]uint16{}}
+	s := &search{j: j, visited: map[vkey][]uint16{}, seenCtx: map[ctxKey]bool{}}
 	vs0 := j.newVoteSet()
 	ob0, p := observe(vs0)
 	if p != "" {
@@ -383,6 +418,7 @@ func (j *job) explore(maxStates int64) *search {
 		return s
 	}
 	root := node{vs: vs0, key: j.keyOf(vs0), or: newOracle(), ob: ob0, parent: -1, tok: -1}
+	root.crypto = s.cryptoMask(&root)
 	s.nodes = append(s.nodes, root)
 	s.visited[vkey{root.key, root.or.first}] = []uint16{0}
 	s.states = 1
@@ -435,7 +471,12 @@ func (j *job) explore(maxStates int64) *search {
 					}
 					s.visited[k] = append(s.visited[k], sc.or.offered)
 					d := pn.depth + 1
-					s.nodes = append(s.nodes, node{vs: sc.vs, key: sc.key, or: sc.or, ob: sc.ob, parent: pidx, tok: sc.tok, depth: d})
+					nn := node{vs: sc.vs, key: sc.key, or: sc.or, ob: sc.ob, parent: pidx, tok: sc.tok, depth: d, claims: pn.claims}
+					if t := j.toks[sc.tok]; t.vote == nil {
+						nn.claims |= 1 << uint(t.claimBit)
+					}
+					nn.crypto = s.cryptoMask(&nn)
+					s.nodes = append(s.nodes, nn)
 					pn = &s.nodes[pidx]
 					if int(d) > s.maxDepth {
 						s.maxDepth = int(d)
